@@ -41,7 +41,7 @@ func NewCategoricalDistribution(theta_ Vector) (*CategoricalDistribution, error)
   theta := NullDenseVector(t, theta_.Dim())
 
   for i := 0; i < theta.Dim(); i++ {
-    if theta_.At(i).GetFloat64() < 0 {
+    if !(theta_.At(i).GetFloat64() >= 0) {
       return nil, fmt.Errorf("invalid negative probability")
     }
     theta.At(i).Log(theta_.At(i))
